@@ -200,8 +200,8 @@ def model_recover(d, snapcount, entries, tag):
 
 
 def snapshot_scenario(ctx, d, binary, snapcount, with_list, nsets, tag):
-    """Single node, threshold lowered by H3.  Log: conf change, leader no-op, one PING (readiness
-    probe), then our commands, one Ready each (sequential client).  Returns (verdict, detail):
+    """Single node, threshold lowered by H3.  Log: conf change, leader no-op, the readiness probes
+    (PING; normally one), then our commands, one Ready each (sequential client).  Returns (verdict, detail):
     verdict in {"as-model", "differs", "not-run"}."""
     cluster = clusterlib.Cluster(binary, 1, tag="c08" + tag,
                                  env={"VERIF_SNAPSHOT_COUNT": str(snapcount), "VERIF_SNAPSHOT_CATCHUP": "2"})
@@ -211,7 +211,8 @@ def snapshot_scenario(ctx, d, binary, snapcount, with_list, nsets, tag):
         if err:
             return "not-run", err
         cmds = ([[b"rpush", b"lst", b"x"]] if with_list else []) + [[b"set", b"s%d" % i, b"v"] for i in range(nsets)]
-        model = model_recover(d, snapcount, ["f", "e", [b"ping"]] + cmds, tag)
+        # log so far: the bootstrap conf change, the leader's no-op, one entry per readiness probe sent
+        model = model_recover(d, snapcount, ["f", "e"] + [[b"ping"]] * cluster.probes_sent + cmds, tag)
         if not model:
             return "not-run", "model run failed"
         c = cluster.client(0, timeout=20.0)
@@ -228,7 +229,7 @@ def snapshot_scenario(ctx, d, binary, snapcount, with_list, nsets, tag):
         alive1 = cluster.alive(0)
         out = cluster.output(0, 400000)
         snaps = [int(x) for x in re.findall(r"start snapshot \[applied index: (\d+)", out)]
-        obs = dict(before="up" if alive1 else "down", acked=nack + 1, snaps=snaps,
+        obs = dict(before="up" if alive1 else "down", acked=nack + cluster.probes_sent, snaps=snaps, probes=cluster.probes_sent,
                    crash=(cluster.crash_reason(0) or "")[:160])
         want_before = model["BEFORE"]
         # a node that panics in maybeTriggerSnapshot has handed the last reply to the callback channel
